@@ -270,6 +270,16 @@ func c20CoreAPI(c fw.Case) fw.Verdict {
 		prev = now
 		steps = append(steps, st)
 	}
+	// the adapter's channel holds 32 events: drain it while the script is consumed
+	var evmu sync.Mutex
+	var evs []interface{}
+	go func() {
+		for ev := range pch {
+			evmu.Lock()
+			evs = append(evs, ev)
+			evmu.Unlock()
+		}
+	}()
 	// wait until the script has been consumed (state-based: number of Peers calls)
 	deadline := time.Now().Add(60 * time.Second)
 	for {
@@ -285,16 +295,10 @@ func c20CoreAPI(c fw.Case) fw.Verdict {
 		time.Sleep(time.Millisecond)
 	}
 	var got []string
-	var evs []interface{}
-drain:
-	for {
-		select {
-		case ev := <-pch:
-			evs = append(evs, ev)
-		default:
-			break drain
-		}
-	}
+	time.Sleep(3 * time.Millisecond) // the last poll's events reach the drainer
+	evmu.Lock()
+	evs = append([]interface{}{}, evs...)
+	evmu.Unlock()
 	i := 0
 	for si, st := range steps {
 		need := len(st.join) + len(st.leave)
